@@ -365,3 +365,20 @@ def run(ctx: core.Ctx) -> int:
     genlayout.check_all(ctx, genlayout.GenInfo(ctx, prog))
     return core.finish(ctx, explanation="structural rules on common.named_vector / named_covariance, E2 layout obligations of python.py, "
                                         "generator layout rules, container-agnostic use of user collections", **META)
+
+
+def named_arrays(ctx, kinds=("vec", "cov")):
+    """NV-*: the named vector / covariance classes bind every value given by name to the row (diagonal entry) of that name -- the containers
+    every filter input and output travels in (shared rule set of C13; fv.props.c13.check_named)."""
+    from . import c13 as _c13
+    for _rid, _t in (("NV-NAMES", "named arrays accept the str() names of their arglist"), ("NV-STORE", "the value given for a name is stored unmodified at its index"),
+                     ("NV-DEFAULT", "zeros / unit variance defaults"), ("NV-GUARD", "unknown names refused"), ("NV-DATA", "_data stored as is"),
+                     ("NV-SHAPE", "shape from the arglist"), ("NV-FROMDICT", "from_dict binds by str(key)"), ("NV-FROMDATA", "from_data refuses wrong shapes"),
+                     ("NV-ITER", "row-order iteration")):
+        ctx.rule(_rid, _t)
+    common = ctx.parse("py/formak/common.py")
+    if "vec" in kinds:
+        _c13.check_named(ctx, common, "named_vector", "vec")
+    if "cov" in kinds:
+        _c13.check_named(ctx, common, "named_covariance", "cov")
+    _c13.check_base(ctx, common)
